@@ -108,7 +108,7 @@ def analyse(case, res):
             fails.append(Failure("C09.not_stopped", "C09.not_stopped",
                                  f"{sorted(over.items())[:3]} need more than max_loop_iterations={maxit} sub-steps but "
                                  f"run() completed"))
-        elif res.outcome == "exception" and res.exc_type == "SimulationError":
+        elif res.outcome == "exception" and res.is_a("SimulationError"):
             # the statement fixes the exception type and that the message names the simulator, not the wording:
             # every simulator id that occurs as a token of the message counts as named
             tokens = set(re.findall(r"[A-Za-z0-9_.\-]+", res.exc_msg or ""))
